@@ -22,6 +22,11 @@ func VerifHarness_C08_WebP_Arbitrary() {
 
 // VerifHarness_C08_WebP_Skeleton: well-formed skeletons (with symbolic fields).
 func VerifHarness_C08_WebP_Skeleton() {
-	in := VerifBuildWebP()
+	var in []byte
+	if verifChoice(2) == 0 {
+		in = VerifBuildWebP()
+	} else { // extended format with an embedded profile of odd and even length
+		in, _, _ = VerifBuildVP8X(true, []int{3, 8}[verifChoice(2)])
+	}
 	verifSegmented(in)
 }
